@@ -350,6 +350,8 @@ def var_array(w: dict, v: dict) -> xarray.DataArray:
     data = data.astype(dtype).reshape(shape)
     if v.get("fillattr"):
         attrs[v["fillattr"]] = numpy.dtype(dtype).type(v["fill"])
+    if v.get("forder"):
+        data = numpy.asfortranarray(data)       # the same values held in Fortran-ordered memory
     da = xarray.DataArray(data, dims=dims, attrs=attrs)
     if v.get("encoding"):
         da.encoding.update(v["encoding"])        # on-disk representation (takes effect when the dataset is written)
